@@ -11,7 +11,8 @@ TARGETED = [("shallow3", "decoys", None), ("weakchiral4", "decoys", True), ("chi
             ("mirrorsym5", "shuffled", None), ("tri_sym3", "shuffled", None), ("planar_sym4", "shuffled", None), ("ch2f2", "shuffled", None),
             ("axis_asym4", "antiparallel", None), ("pair_y", "antiparallel", None), ("asym4", "corners", None), ("bent3_y", "stretched", None),
             ("collinear3", "corners", None), ("single", "mixed", None),
-            ("pair", "stretched-axis", None), ("axis_asym4", "stretched-axis", None), ("shallow3", "stretched-axis", None), ("asym4", "stretched-axis", None)]
+            ("pair", "stretched-axis", None), ("axis_asym4", "stretched-axis", None), ("shallow3", "stretched-axis", None), ("asym4", "stretched-axis", None),
+            ("asym4", "crowded", True)]
 
 
 def py_out_problem(c, idx, mpos, q):
@@ -49,7 +50,18 @@ def run_find_property(pid, tier, seed, replay, propfiles, flavors, ncases, rule,
         cases = []
         if replay:
             r = json.load(open(replay))
-            if "input" in r:
+            if "input" in r and "atol" in r["input"]:
+                # replay of a zero-tolerance violation: the recorded structure, the recorded tolerance
+                from mofun import find_pattern_in_structure
+                c0 = FG.case_from_json(r["input"]["case"])
+                S, P = FG.atoms_of(c0)
+                with FG.quiet():
+                    got = find_pattern_in_structure(S, P, atol=r["input"]["atol"])
+                if len(got):
+                    found_input = True
+                    run.violation("failing-input", {"input": r["input"], "observed": {"matches": [[int(i) for i in m] for m in got]},
+                                                    "expected": "no match at this tolerance", "case_kind": "zero-tolerance"})
+            elif "input" in r:
                 cases.append((FG.case_from_json(r["input"]["case"]), r["input"].get("seed", 0), "replay"))
         for name, cj in corpus(pid):
             cases.append((FG.case_from_json(cj["case"]), cj.get("seed", 0), "corpus:" + name))
@@ -108,6 +120,32 @@ def run_find_property(pid, tier, seed, replay, propfiles, flavors, ncases, rule,
                 run.nontrivial(FG.case_json(c))
             lits.append(FG.find_case_literal(c, res, E, expect=("planted" if expect_mode else None)))
             run.sample(FG.describe(c))
+        # a requested tolerance of (next to) zero: copies distorted by 0.03 A are not occurrences
+        if not replay:
+            for zi, pat in enumerate(["asym4", "bent3_y", "pair"]):
+                c = FG.make_case(run.rng, 2000 + zi, flavor="corners", pattern=pat)
+                if c is None or not c["planted"]:
+                    continue
+                pos = np.array(c["pos"], float)
+                for g in c["planted"]:
+                    pos[g[-1]] = pos[g[-1]] + np.array([0.03, 0.0, 0.0])
+                c0 = dict(c, pos=pos, planted=[])
+                for tol in (0.0, 1e-6):
+                    from mofun import find_pattern_in_structure
+                    S, P = FG.atoms_of(c0)
+                    with FG.quiet():
+                        try:
+                            got = find_pattern_in_structure(S, P, atol=tol)
+                        except Exception as e:      # noqa
+                            got = []
+                    run.cov["evaluations"] += 1
+                    run.count("zero-tolerance")
+                    if len(got):
+                        found_input = True
+                        run.violation("failing-input", {"input": {"case": FG.case_json(c0), "atol": tol, "note": "positions are off the grid: last atom of every copy displaced by 0.03 A"},
+                                                        "observed": {"matches": [[int(i) for i in m] for m in got]},
+                                                        "expected": "no match: every copy has an atom 0.03 A away from where the pattern puts it and the requested tolerance is %g" % tol,
+                                                        "case_kind": "zero-tolerance"})
         failing = run.correspond(pid.lower(), FG.FIND_HEADER, lits, shard=12, spec=True, timeout=1200)
         for gi in sorted(set(run.spec_failing)):
             c, s, kind = cases[gi]
